@@ -942,7 +942,15 @@ func (p *queryPlan) projectAndGroupBy() error {
 				aap.Acc = table.NewCountAccumulator()
 			}
 		case lexer.ItemSum:
+			if p.tbl.NumRows() == 0 {
+				// Nothing to sum: the reduced table stays empty whatever the accumulator.
+				aap.Acc = table.NewSumInt64LiteralAccumulator(0)
+				break
+			}
 			cell := p.tbl.Rows()[0][prj.Binding]
+			if cell == nil {
+				return fmt.Errorf("can only sum int64 and float64 literals; found no value for binding %q", prj.Binding)
+			}
 			if cell.L == nil {
 				return fmt.Errorf("can only sum int64 and float64 literals; found %s instead for binding %q", cell, prj.Binding)
 			}
